@@ -86,6 +86,29 @@ theorem converter_position (ip : Interp Rat S I) (eq : List S) (frames : List (L
         have := Int.le_floor.mp this
         push_cast at this; linarith
 
+/-- **What is left behind** (`source()`, `source_mut()`, `into_source()`): after ANY number of outputs at any
+    ratios `> 0` the source the converter holds — and hands back — is the original source advanced by exactly
+    the frames pulled so far, `p0 + ⌊P_(m-1)⌋` (the pulls for position `P_m` are made by the *next* output,
+    none in advance, none given back), so the next frame it yields is source frame `p0 + ⌊P_(m-1)⌋`. -/
+theorem into_source_continues (ip : Interp Rat S I) (eq : List S) (frames : List (List S)) (p0 : Nat) (ist0 : I)
+    (ratio0 : Rat) (rs : List Rat) (hrs : ∀ r ∈ rs, 0 < r) :
+    let left := (run AR ip eq rs ⟨⟨frames, p0⟩, ist0, 0, ratio0⟩).2.src
+    let pulled := if rs = [] then 0 else ⌊posAt rs (rs.length - 1)⌋.toNat
+    left = ⟨frames, p0 + pulled⟩ ∧ (left.next eq).1 = srcAt eq frames (p0 + pulled) := by
+  have hrs' : ∀ r ∈ rs, 0 ≤ r := fun r hr => le_of_lt (hrs r hr)
+  have h := run_final sn cs pi ip eq frames p0 ist0 rs hrs' _ 0 0 (Tracks.init ip eq frames p0 ist0 ratio0)
+  have e : (run AR ip eq rs ⟨⟨frames, p0⟩, ist0, 0, ratio0⟩).2.src
+      = ⟨frames, p0 + (if rs = [] then 0 else ⌊posAt rs (rs.length - 1)⌋.toNat)⟩ := by
+    have h1 := h.frames_eq
+    have h2 := h.pos_eq
+    simp only [zero_add] at h2
+    generalize (run AR ip eq rs ⟨⟨frames, p0⟩, ist0, 0, ratio0⟩).2.src = x at h1 h2 ⊢
+    cases x; simp_all
+  intro left pulled
+  refine ⟨e, ?_⟩
+  show (Src.next eq (run AR ip eq rs ⟨⟨frames, p0⟩, ist0, 0, ratio0⟩).2.src).1 = _
+  rw [e]; rfl
+
 /-- ("never skipping or re-reading one") the frames the interpolator was fed up to output `n` are the
     source frames at positions `p0, p0+1, …` — the `j`-th one fed is source frame `p0 + j`: in source
     order, each exactly once. (Together with `converter_position`: exactly `⌊P_n⌋` of them.) -/
